@@ -160,8 +160,122 @@ fn histories(tier: Tier) -> Vec<History> {
             ops.extend(sfx);
             v.push(History { name: format!("t{}-base+{}", i, n), ops });
         }
+        // base ++ every enabled suffix of length <= 2 over the alphabet
+        let alpha = suffix_alphabet();
+        let mut frontier: Vec<Vec<usize>> = vec![vec![]];
+        let mut n = 0usize;
+        for _ in 0..2 {
+            let mut next = vec![];
+            for p in &frontier {
+                for a in 0..alpha.len() {
+                    let mut q = p.clone();
+                    q.push(a);
+                    let mut ops = base(sets[n % sets.len()]);
+                    ops.extend(q.iter().map(|i| alpha[*i].clone()));
+                    if enabled(&ops) {
+                        v.push(History { name: format!("e-base+{}", q.iter().map(|i| i.to_string()).collect::<Vec<_>>().join(".")), ops });
+                        n += 1;
+                        next.push(q);
+                    }
+                }
+            }
+            frontier = next;
+        }
     }
     v
+}
+
+fn suffix_alphabet() -> Vec<Op> {
+    vec![
+        Op::Secret { f: 1, kind: "card".into(), variant: 1 },
+        Op::Update { s: 1 },
+        Op::Archive { s: 2 },
+        Op::Move { s: 2, to: 1 },
+        Op::DeleteFolder { f: 1 },
+        Op::CustomField { s: 2 },
+        Op::Compact { f: 0 },
+        Op::Folder { flags: false, desc: true },
+        Op::Rename { f: 0 },
+        Op::DeleteSecret { s: 2 },
+        Op::Prefs,
+        Op::TrustDevice,
+        Op::FolderCipher,
+    ]
+}
+
+/// Is every op of the history enabled when it is reached?
+fn enabled(ops: &[Op]) -> bool {
+    let mut folders: Vec<bool> = vec![true];
+    // (alive, folder slot)
+    let mut secrets: Vec<(bool, usize)> = vec![];
+    let mut prefs = false;
+    let mut device = false;
+    for op in ops {
+        let f_ok = |f: &usize| folders.get(*f).copied() == Some(true);
+        let s_ok = |s: &usize| secrets.get(*s).map(|x| x.0) == Some(true);
+        match op {
+            Op::Folder { .. } | Op::FolderCipher => folders.push(true),
+            Op::Secret { f, .. } | Op::Attach { f } => {
+                if !f_ok(f) {
+                    return false;
+                }
+                secrets.push((true, *f));
+            }
+            Op::Rename { f } | Op::Compact { f } => {
+                if !f_ok(f) {
+                    return false;
+                }
+            }
+            Op::Update { s } | Op::CustomField { s } => {
+                if !s_ok(s) {
+                    return false;
+                }
+            }
+            Op::DeleteSecret { s } => {
+                if !s_ok(s) {
+                    return false;
+                }
+                secrets[*s].0 = false;
+            }
+            Op::Archive { s } => {
+                if !s_ok(s) || secrets[*s].1 == ARCHIVE_SLOT {
+                    return false;
+                }
+                secrets[*s].1 = ARCHIVE_SLOT;
+            }
+            Op::Move { s, to } => {
+                if !s_ok(s) || !f_ok(to) || secrets[*s].1 == *to {
+                    return false;
+                }
+                secrets[*s].1 = *to;
+            }
+            Op::DeleteFolder { f } => {
+                if *f == 0 || !f_ok(f) {
+                    return false;
+                }
+                folders[*f] = false;
+                for s in secrets.iter_mut() {
+                    if s.1 == *f {
+                        s.0 = false;
+                    }
+                }
+            }
+            // once is enough (the second application changes nothing new)
+            Op::Prefs => {
+                if prefs {
+                    return false;
+                }
+                prefs = true;
+            }
+            Op::TrustDevice => {
+                if device {
+                    return false;
+                }
+                device = true;
+            }
+        }
+    }
+    true
 }
 
 fn trees(tier: Tier, hs: &[History]) -> Vec<Tree> {
@@ -185,7 +299,8 @@ fn trees(tier: Tier, hs: &[History]) -> Vec<Tree> {
     v.push(Tree { accounts: vec![0, 3], sync: SyncState::Synced, global_prefs: false, keep_and_backup: false });
     let ahead: Vec<usize> = match tier {
         Tier::Quick => vec![0],
-        Tier::Thorough => (0..n).collect(),
+        // the enumerated histories: every third one also edited after the sync
+        Tier::Thorough => (0..n).filter(|i| *i < 14 || i % 3 == 0).collect(),
     };
     for i in ahead {
         v.push(Tree { accounts: vec![i], sync: SyncState::SyncedThenEdited, global_prefs: false, keep_and_backup: false });
@@ -1213,7 +1328,7 @@ fn main() {
     cov.insert("exhaustive".into(), json!(true));
     cov.insert(
         "rule".into(),
-        json!("source trees = every history never synced + two 2-account data dirs + a subset (quick) / every (thorough) history synced to a real server + one 2-account synced dir + synced-then-edited-locally trees; every synced (not edited) tree also contributes its server directory as a server-layout tree. Each tree: dry run (source digest unchanged, no db file) then real upgrade (alternating default options and keep_stale_files+backup_directory); oracle per account: sync_status, record streams (commit, timestamp, bytes), decrypted view, trusted devices, account + global preferences, server origins, blob set and bytes, decrypted attachments; syncs: upgraded client x old server, old client x upgraded server, upgraded client x upgraded server"),
+        json!("histories: 4 fixed (quick) + 10 named + base ++ every enabled suffix of length <= 2 over 13 operations (thorough). source trees = every history never synced + two 2-account data dirs + a subset (quick) / every (thorough) history synced to a real server + one 2-account synced dir + synced-then-edited-locally trees; every synced (not edited) tree also contributes its server directory as a server-layout tree. Each tree: dry run (source digest unchanged, no db file) then real upgrade (alternating default options and keep_stale_files+backup_directory); oracle per account: sync_status, record streams (commit, timestamp, bytes), decrypted view, trusted devices, account + global preferences, server origins, blob set and bytes, decrypted attachments; syncs: upgraded client x old server, old client x upgraded server, upgraded client x upgraded server"),
     );
     std::process::exit(run.finish(cov));
 }
